@@ -130,6 +130,29 @@ void l_two_monitors(void)
   __CPROVER_assert(0, "REACH! two_monitors.end");
 }
 
+/* ---- two requirements for one object, both released while the object is alive, in either order: "a requirement that ends while
+ * the object is still alive reports exactly one non-fatal 'still alive'" - each of them */
+_Bool in_inner_first;
+void l_two_released(void)
+{
+  dw = VP_NEW(struct DW); DW_CTOR(dw);
+  struct LM *m0 = new_monitor(dw, 41);
+  struct LM *m1 = new_monitor(dw, 42);
+  in_inner_first = nondet_bool();
+  struct LM *first = in_inner_first ? m1 : m0, *second = in_inner_first ? m0 : m1;
+  LM_DTOR(first);
+  __CPROVER_assert(vp_rep_n == 1 && vp_rep[0].sev == 1 && vp_rep[0].line == (in_inner_first ? 42 : 41), "[C13,C15] POST two_released.the_first_release_is_one_nonfatal_still_alive_report_with_its_own_location");
+  LM_DTOR(second);
+  __CPROVER_assert(vp_rep_n == 2 && vp_rep[1].sev == 1 && vp_rep[1].line == (in_inner_first ? 41 : 42), "[C13,C15] POST two_released.the_second_release_is_one_nonfatal_still_alive_report_with_its_own_location");
+  __CPROVER_assert(vp_exc == 0 && !vp_terminated, "[C15,C14] POST two_released.destructors_do_not_throw");
+  __CPROVER_assert(dw->trompeloeil_lifetime_monitor.p == 0, "[C13,C14] POST two_released.the_object_has_forgotten_both");
+  free(m0); free(m1);
+  DW_DTOR(dw);
+  __CPROVER_assert(vp_rep_n == 3 && vp_rep[2].sev == 1, "[C13] POST two_released.the_later_death_is_unexpected");
+  __CPROVER_assert(in_inner_first, "REACH two_released.outer_first"); __CPROVER_assert(!in_inner_first, "REACH two_released.inner_first");
+  __CPROVER_assert(0, "REACH! two_released.end");
+}
+
 /* ---- copies and moves do not inherit; the original keeps its own, also when assigned to */
 void l_copy_move_assign(void)
 {
